@@ -250,7 +250,7 @@ func (p *Proc) phase() string {
 		return "created-not-written"
 	case pos == "before-lock.pidwritten" || pos == "after-lock.created":
 		return "pid-written-not-returned"
-	case strings.Contains(pos, "cs.") || pos == "before-lock.release" || pos == "after-lock.pidwritten":
+	case strings.Contains(pos, "cs.") || pos == "before-lock.release" || pos == "after-lock.pidwritten" || strings.HasSuffix(pos, "lock.acquired"):
 		return "holding"
 	}
 	return "not-yet-created"
